@@ -160,16 +160,20 @@ func (t *traceReader) Discard(n int) (int, error) {
 // chunking says how an underlying transport hands out bytes.
 type chunking struct {
 	name        string
-	size        int  // >0: at most `size` bytes per Read; 0: as much as asked
-	halves      bool // first Read returns ceil(len/2) bytes at most, afterwards unrestricted
-	eofWithData bool // the Read that delivers the last byte also returns io.EOF (allowed by io.Reader)
-	zeroAt      int  // >=0: one (0,nil) Read is injected when the cursor is at this offset; -1: never
+	size        int    // >0: at most `size` bytes per Read; 0: as much as asked
+	halves      bool   // first Read returns ceil(len/2) bytes at most, afterwards unrestricted
+	eofWithData bool   // the Read that delivers the last byte also returns io.EOF (allowed by io.Reader)
+	zeroAt      int    // >=0: one (0,nil) Read is injected when the cursor is at this offset; -1: never
+	splitAt     int    // >0: the transport delivers [0,splitAt) first (however much is asked), the rest afterwards
+	rnd         uint64 // !=0: chunk sizes 1..17 from a fixed pseudo-random sequence with this seed
 }
 
 func (c chunking) class() string {
 	switch {
 	case c.zeroAt >= 0:
 		return "zero-nil-read"
+	case c.splitAt > 0:
+		return "two-chunks"
 	case c.eofWithData && c.size == 0 && !c.halves:
 		return "eof-with-data"
 	case c.size == 0 && !c.halves:
@@ -206,6 +210,15 @@ func (r *chunkReader) Read(p []byte) (int, error) {
 	n := len(p)
 	if r.ch.size > 0 && n > r.ch.size {
 		n = r.ch.size
+	}
+	if r.ch.splitAt > 0 && r.off < r.ch.splitAt && n > r.ch.splitAt-r.off {
+		n = r.ch.splitAt - r.off
+	}
+	if r.ch.rnd != 0 {
+		r.ch.rnd = r.ch.rnd*6364136223846793005 + 1442695040888963407
+		if k := int(r.ch.rnd>>59)%17 + 1; n > k {
+			n = k
+		}
 	}
 	if r.ch.halves && r.off == 0 {
 		if h := (len(r.data) + 1) / 2; n > h {
